@@ -223,8 +223,10 @@ class LogCatcher(logging.Handler):
     def emit(self, record):
         try:
             msg = record.getMessage()
-        except Exception as e:               # a repr() that raises is the resource's business
-            msg = "unformattable:" + type(e).__name__
+        except Exception as e:               # a repr() that raises is the resource's business:
+            # the record is classified by its message template (what the library meant to say)
+            msg = str(record.msg) if any(str(record.msg).startswith(p) for p, _ in self.PREFIXES) \
+                else "unformattable:" + type(e).__name__
         kind = None
         for p, k in self.PREFIXES:
             if msg.startswith(p):
@@ -306,6 +308,7 @@ class Run:
             return None
         R = self.aiocoap.resource
         site = R.Site()
+        subsites = {}
         for r in self.case["site"]:
             attrs = {}
             for code, h in r["handlers"].items():
@@ -328,7 +331,19 @@ class Run:
                 attrs["needs_blockwise_assembly"] = needs_blockwise_assembly
                 attrs["render"] = render
             cls = type("GeneratedResource", (R.Resource,), attrs)
-            site.add_resource(list(r["path"]), cls())
+            # "under": positions at which the full path is cut into nested sites ([1] = a sub-site registered at
+            # path[:1] holds the resource at path[1:]; [1, 2] = two levels).  `path` stays the full path: that is what
+            # the model and the oracle look requests up by.
+            holder, start = site, 0
+            for cut in r.get("under", ()):
+                key = tuple(r["path"][:cut])
+                if key not in subsites:
+                    subsites[key] = R.Site()
+                    holder.add_resource(list(r["path"][start:cut]), subsites[key])
+                holder, start = subsites[key], cut
+            if r.get("site_only"):
+                continue                    # only the (empty) nested site is wanted
+            holder.add_resource(list(r["path"][start:]), cls())
         return site
 
     # ---- scripted peers -----------------------------------------------------------------------
